@@ -70,7 +70,7 @@ type knownFile struct {
 
 func loadKnown() (knownFile, error) {
 	var k knownFile
-	b, err := ioutil.ReadFile("/verif/known_findings.json")
+	b, err := ioutil.ReadFile(filepath.Join(verifRoot, "known_findings.json"))
 	if err != nil {
 		if os.IsNotExist(err) {
 			return k, nil
@@ -87,6 +87,8 @@ func fail2(format string, a ...interface{}) {
 }
 
 func main() {
+	initRoot()
+	pipeline.HarnessDir = filepath.Join(verifRoot, "harness")
 	if len(os.Args) < 2 {
 		fail2("usage: check setup | check <property> --tier quick|thorough [--replay <bundle>]")
 	}
@@ -128,7 +130,7 @@ func main() {
 }
 
 func newEnv() (*pipeline.Env, func()) {
-	w := filepath.Join("/verif/.work", strconv.Itoa(os.Getpid()))
+	w := filepath.Join(verifRoot, ".work", strconv.Itoa(os.Getpid()))
 	os.RemoveAll(w)
 	if err := os.MkdirAll(w, 0o755); err != nil {
 		fail2("%v", err)
@@ -291,7 +293,7 @@ func verdict(p propSpec, tier string, seed int64, reps []*FamilyReport, known kn
 		nviol++
 		exit = 1
 		h := sha256.Sum256([]byte(k))
-		dir := filepath.Join("/verif/replays", p.ID)
+		dir := filepath.Join(verifRoot, "replays", p.ID)
 		os.MkdirAll(dir, 0o755)
 		path := filepath.Join(dir, hex.EncodeToString(h[:6])+".json")
 		ioutil.WriteFile(path, g.bun, 0o644)
@@ -373,14 +375,14 @@ func writeEvidence(p propSpec, tier string, seed int64, e evidence) {
 		},
 		"wall_s": e.wall, "violations": e.violations,
 	}
-	os.MkdirAll("/verif/evidence", 0o755)
+	os.MkdirAll(filepath.Join(verifRoot, "evidence"), 0o755)
 	b, _ := json.MarshalIndent(ev, "", " ")
-	ioutil.WriteFile(filepath.Join("/verif/evidence", p.ID+".json"), b, 0o644)
+	ioutil.WriteFile(filepath.Join(verifRoot, "evidence", p.ID+".json"), b, 0o644)
 }
 
 func setup() int {
 	// sany on every module
-	dir := filepath.Join("/verif/.work", "setup-"+strconv.Itoa(os.Getpid()))
+	dir := filepath.Join(verifRoot, ".work", "setup-"+strconv.Itoa(os.Getpid()))
 	defer os.RemoveAll(dir)
 	if err := copySpec(dir); err != nil {
 		fail2("%v", err)
